@@ -375,7 +375,8 @@ func (g *gen) param(in, name string) PSpec {
 		if (in == "query" || in == "formData") && g.r.Chance(1, 3) {
 			p.AllowEmpty = true
 		}
-		if !p.Required && p.Type != "array" && p.Format != "date" && p.Format != "date-time" && p.Format != "uuid" && g.r.Chance(1, 3) {
+		// a default next to required: true is legal and changes nothing about the obligation to send the parameter
+		if p.Type != "array" && p.Format != "date" && p.Format != "date-time" && p.Format != "uuid" && g.r.Chance(1, 3) {
 			switch p.Type {
 			case "string":
 				p.Default = "bb"
@@ -401,6 +402,9 @@ func (g *gen) param(in, name string) PSpec {
 	}
 	if p.Default != nil {
 		g.hit("param:default")
+		if p.Required {
+			g.hit("param:required+default:" + in)
+		}
 	}
 	if p.Type == "array" {
 		g.hit("param:collectionFormat:" + p.CFmt)
